@@ -195,14 +195,14 @@ impl Prop for P {
                 }
                 let mut d = DecompressorOxide::new();
                 let hm = if *h_ring { BufMode::Ring { bits: 15, start: 0, fill_seed: 1 } } else { BufMode::Flat { cap: 70_000 } };
-                let rh = drive(&mut d, &dh, &DriveOpts { flags: zflags(zh), mode: hm, sched: h_sched, canary: false, max_calls: Some(*h_calls as u64 + 1), announce: true, flat_start: 0 }, plain_hook)?;
+                let rh = drive(&mut d, &dh, &DriveOpts { flags: zflags(zh), mode: hm, sched: h_sched, canary: false, max_calls: Some(*h_calls as u64 + 1), announce: true, flat_start: 0, probe_full_ring: false }, plain_hook)?;
                 d.init();
                 let wm = match w_ring {
                     None => BufMode::Flat { cap: vw.out.len() + 300 },
                     Some((b, s, f)) => BufMode::Ring { bits: *b, start: *s, fill_seed: *f },
                 };
                 let go = |d: &mut DecompressorOxide| -> Result<(Vec<u8>, TINFLStatus, usize, Vec<(u8, TINFLStatus)>), Violation> {
-                    let r = drive(d, &dw, &DriveOpts { flags: zflags(zw), mode: wm, sched: w_sched, canary: false, max_calls: None, announce: true, flat_start: 0 }, plain_hook)?;
+                    let r = drive(d, &dw, &DriveOpts { flags: zflags(zw), mode: wm, sched: w_sched, canary: false, max_calls: None, announce: true, flat_start: 0, probe_full_ring: false }, plain_hook)?;
                     Ok((r.out, r.status, r.consumed, r.suspensions))
                 };
                 let a = go(&mut d)?;
